@@ -60,17 +60,17 @@ func VerifCompatRecord(in VerifCompatRow) (channel.Record, error) {
 
 // Constants the Coq model depends on.
 const (
-	VerifFNVOffset              uint64 = fnv64aOffset
-	VerifFNVPrime               uint64 = fnv64aPrime
-	VerifFilterPrimaryWords            = idempotencyMembershipPrimaryWords
-	VerifFilterOverflowWords           = idempotencyMembershipOverflowWords
-	VerifFilterPrimaryCapacity         = idempotencyMembershipPrimaryCapacity
-	VerifFilterHashCount               = idempotencyMembershipHashCount
-	VerifAppendStrict                  = uint8(AppendStrict)
-	VerifAppendServerAllocated         = uint8(AppendServerAllocatedMessageID)
-	VerifAppendTrustedContiguous       = uint8(AppendTrustedContiguous)
-	VerifSyncOnceFlag           uint8  = 4
-	VerifDefaultWarmEntries            = defaultChannelWarmCacheEntries
+	VerifFNVOffset               uint64 = fnv64aOffset
+	VerifFNVPrime                uint64 = fnv64aPrime
+	VerifFilterPrimaryWords             = idempotencyMembershipPrimaryWords
+	VerifFilterOverflowWords            = idempotencyMembershipOverflowWords
+	VerifFilterPrimaryCapacity          = idempotencyMembershipPrimaryCapacity
+	VerifFilterHashCount                = idempotencyMembershipHashCount
+	VerifAppendStrict                   = uint8(AppendStrict)
+	VerifAppendServerAllocated          = uint8(AppendServerAllocatedMessageID)
+	VerifAppendTrustedContiguous        = uint8(AppendTrustedContiguous)
+	VerifSyncOnceFlag            uint8  = 4
+	VerifDefaultWarmEntries             = defaultChannelWarmCacheEntries
 )
 
 // VerifHashPayload is the persisted payload hash function.
